@@ -35,7 +35,7 @@ META = dict(
          "parentheses, 3 rejects and the empty token, i.e. a leading / trailing / doubled space) joined by single spaces (also with the judged spec in the first / middle / last of 2-3 tests that share limit names): accepted iff every token is allowed, else ValueError; (d) "
          "creator: synthetic time-constant NetCDF-3 climatologies (2-d and 3-d, 4 cell patterns incl. NaN / negative / "
          "zero-sum) x every index-aligned bounding box x 6 date ranges (one day ... exactly one year) x 3 expression sets, + request histories on one creator (one variable config edited in place / fresh objects): spans must equal the "
-         "Scale: evaluation histories of 2500 steps in one process, expression chains of 400 terms, a 5x9-cell climatology grid with sub-boxes of 16-43 cells. expressions on min/max/mean/std of the in-box cells. non-trivial = expression with an operator / history with "
+         "expressions on min/max/mean/std of the in-box cells. Scale: evaluation histories of 2500 steps in one process, expression chains of 400 terms, a 5x9-cell climatology grid with sub-boxes of 16-43 cells. non-trivial = expression with an operator / history with "
          "a failing step / token string with a rejected token / box smaller than the grid",
     bounds={"quick": {"expr_depth": 2, "history_depth": 3, "token_len": 3}, "thorough": {"expr_depth": 3, "history_depth": 4, "token_len": 3}},
     not_judged=["expressions whose reference evaluation divides by zero", "tabs / other whitespace in the validator input"],
